@@ -306,6 +306,59 @@ func ruleSelectLogsCleanup(r *Run) {
 		}
 	}
 	if !handed {
+		// the opening was extracted: the function returns the whole slot slice on success and
+		// its caller hands that result to the merged iterator
+		returnsSlots := false
+		for _, ret := range returnsOf(fn) {
+			if len(ret.Results) < 2 {
+				continue
+			}
+			// results spilled for a deferred function: what was stored into the result cell
+			if u, ok := ret.Results[0].(*ssa.UnOp); ok {
+				if al, ok := u.X.(*ssa.Alloc); ok && len(storesTo(al)) > 0 {
+					whole := false
+					for _, st := range storesTo(al) {
+						if isNilConst(st.Val) {
+							continue
+						}
+						if d, ok := isWholeValue(st.Val); ok && d != "re-slice" {
+							whole = true
+						} else {
+							whole = false
+							break
+						}
+					}
+					returnsSlots = whole
+					continue
+				}
+			}
+			if !isNilConst(ret.Results[len(ret.Results)-1]) {
+				continue
+			}
+			if d, ok := isWholeValue(ret.Results[0]); ok && d != "re-slice" {
+				returnsSlots = true
+			} else {
+				returnsSlots = false
+				break
+			}
+		}
+		if returnsSlots {
+			for _, caller := range p.SrcFuncs() {
+				if pkgOfFunc(caller) != pkgOfFunc(fn) {
+					continue
+				}
+				for _, c := range callsIn(caller) {
+					if !callIs(c, modPath+"/"+dockerlogPkg, "newMergeIter") {
+						continue
+					}
+					if oc, idx, ok := extractOf(c.Common().Args[0]); ok && idx == 0 && staticCallee(oc) == fn {
+						handed = true
+					}
+				}
+			}
+		}
+	}
+	if !handed {
 		good = false
 		o.Fail(r.pos(fn.Pos()), "the opened readers are not all handed to the merged iterator")
 	}
